@@ -787,10 +787,8 @@ func continueToMatchingQuote(l *lexer, typ tokenType, captureQuotes bool) rune {
 		if r == quote && !escaping {
 			break
 		}
-		escaping = false
-		if r == '\\' {
-			escaping = true
-		}
+		// a backslash escapes the next character only, another backslash included
+		escaping = r == '\\' && !escaping
 	}
 	if captureQuotes {
 		l.emit(typ)
@@ -814,12 +812,12 @@ func continueToMatchingBrace(l *lexer, endBrace rune) rune {
 		}
 
 		if r == '"' || r == '\'' {
-			if r == quotes && !isEscaping {
-				inQuotes = !inQuotes
-				quotes = rune(0)
-			} else {
+			if !inQuotes {
 				inQuotes = true
 				quotes = r
+			} else if r == quotes && !isEscaping {
+				inQuotes = false
+				quotes = rune(0)
 			}
 			isEscaping = false
 			continue
@@ -829,8 +827,7 @@ func continueToMatchingBrace(l *lexer, endBrace rune) rune {
 			return r
 		}
 
-		if r == '\\' && inQuotes {
-			isEscaping = true
-		}
+		// a backslash escapes the next character only, another backslash included
+		isEscaping = r == '\\' && inQuotes && !isEscaping
 	}
 }
